@@ -20,7 +20,7 @@ def one_record(c, st, m, lanes, stim, reuse, strip, inj_line, inj_vals):
     from kyupy import logic
     from kyupy.logic_sim import LogicSim
     rec = dict(st=st, m=m, lanes=lanes, stim=stim, strip=strip, calls=[], inj=dict(line=inj_line, vals=inj_vals),
-               resp=[], plain=[], raised=False)
+               resp=[], plain=[], rerun=[], raised=False)
     mdim = {2: 1, 4: 2, 8: 3}[m]
     mask = {2: 1, 4: 3, 8: 7}[m]
     try:
@@ -44,6 +44,10 @@ def one_record(c, st, m, lanes, stim, reuse, strip, inj_line, inj_vals):
                 view[...] = new
         s = lsim.run_logic(c, m, lanes, stim, reuse, strip, cb, True)
         rec['resp'] = lsim.codes(s, 1, lanes)
+        # the same simulator instance, propagated once more without any callback
+        s.c_prop()
+        s.c_to_s()
+        rec['rerun'] = lsim.codes(s, 1, lanes)
     except Exception as e:
         rec['raised'] = True
         rec['err'] = repr(e)[:300]
